@@ -107,6 +107,12 @@ fn results(d1: &[Q], d2: &[Q]) -> (Vec<bool>, Vec<String>) {
         };
     }
     both!(&v1, &v2, "Vec/Vec");
+    // a container holding a statement twice (the Dataset trait allows it; a dataset is a set of quads all the same)
+    if !d1.is_empty() {
+        let mut v1dup = v1.clone();
+        v1dup.push(v1[v1.len() / 2].clone());
+        both!(&v1dup, &h2, "Vec-with-a-duplicate/HashSet");
+    }
     both!(&v1, &h2, "Vec/HashSet");
     both!(&b1, &h2, "BTreeSet/HashSet");
     both!(&f1, &l2, "FastDataset/LightDataset");
@@ -121,7 +127,6 @@ fn results(d1: &[Q], d2: &[Q]) -> (Vec<bool>, Vec<String>) {
         names.push("graphs Vec/HashSet (d2,d1)".into());
         // the same triples seen through views of a LARGER dataset (their size hints are those of the whole dataset): one named graph,
         // a partial union of two named graphs, and a graph wrapped as a dataset
-        // (a triple sits in ONE of the two graphs of the partial union: views do not deduplicate, and datasets are sets here)
         let (ga, gb, gc, gall): (ST, ST, ST, ST) = (iri("http://ex/view-a"), iri("http://ex/view-b"), iri("http://ex/view-c"), iri("http://ex/view-all"));
         let mut big: Vec<Spog<ST>> = vec![];
         for (i, q) in d1.iter().enumerate() {
@@ -146,6 +151,19 @@ fn results(d1: &[Q], d2: &[Q]) -> (Vec<bool>, Vec<String>) {
         names.push("graphs PartialUnionGraph-view/HashSet (d1,d2)".into());
         res.push(isomorphic_graphs(&g2, &vu).unwrap());
         names.push("graphs PartialUnionGraph-view/HashSet (d2,d1)".into());
+        // a view that yields a triple twice (it sits in both graphs of the partial union) against the set of triples
+        let mut both: Vec<Spog<ST>> = vec![];
+        for (i, q) in d1.iter().enumerate() {
+            both.push((q.0.clone(), Some(ga.clone())));
+            if i % 2 == 0 {
+                both.push((q.0.clone(), Some(gb.clone())));
+            }
+        }
+        let vd = both.partial_union_graph(sophia_api::term::matcher::GraphNameMatcher::matcher_ref(&sel));
+        res.push(isomorphic_graphs(&vd, &g2).unwrap());
+        names.push("graphs overlapping-PartialUnionGraph-view/HashSet (d1,d2)".into());
+        res.push(isomorphic_graphs(&g2, &vd).unwrap());
+        names.push("graphs overlapping-PartialUnionGraph-view/HashSet (d2,d1)".into());
         let wd = sophia_api::graph::Graph::as_dataset(&g1);
         res.push(isomorphic_datasets(&wd, &h2).unwrap());
         names.push("GraphAsDataset/HashSet (d1,d2)".into());
